@@ -5,12 +5,24 @@ from typing import Callable, Union, Any, Generic, TypeVar, Generator, Awaitable
 
 from .._primitives.notification import postpone
 from .._primitives.condition import Condition
+from ._resource_level import ResourceLevels
 
 
 #: Type of a (tracked) value
 V = TypeVar('V')
 #: Right Hand Side type of an operation
 RHS = TypeVar('RHS')
+
+
+class _Negated:
+    """Negation of a comparison operator, for values that are only partially ordered"""
+    __slots__ = ('operator',)
+
+    def __init__(self, operator: Callable[[Any, Any], bool]):
+        self.operator = operator
+
+    def __call__(self, left, right) -> bool:
+        return not self.operator(left, right)
 
 
 class AsyncComparison(Condition):
@@ -43,9 +55,19 @@ class AsyncComparison(Condition):
         return self._test()
 
     def __invert__(self):
-        return AsyncComparison(
-            self._left, self._operator_inverse[self._condition], self._right
-        )
+        condition = self._condition
+        if isinstance(condition, _Negated):
+            inverse = condition.operator
+        elif condition in (operator.eq, operator.ne) or not isinstance(
+            self._right.value if isinstance(self._right, Tracked) else self._right,
+            ResourceLevels,
+        ):
+            inverse = self._operator_inverse[condition]
+        else:
+            # resource levels are compared element-wise: they are only partially
+            # ordered, so that e.g. ``not a >= b`` does not mean ``a < b``
+            inverse = _Negated(condition)
+        return AsyncComparison(self._left, inverse, self._right)
 
     def __init__(
             self,
@@ -75,9 +97,14 @@ class AsyncComparison(Condition):
             self.__trigger__()
 
     def __str__(self):
+        if isinstance(self._condition, _Negated):
+            symbol = self._operator_symbol[self._condition.operator]
+            return f'not {self._left} {symbol} {self._right}'
         return f'{self._left} {self._operator_symbol[self._condition]} {self._right}'
 
     def __repr__(self):
+        if isinstance(self._condition, _Negated):
+            return f'~{~self!r}'
         return f'{self.__class__.__name__}({self._left!r}, '\
                f'operator.{self._condition.__name__}, {self._right!r})'
 
